@@ -1146,6 +1146,32 @@ func main() {
 	}
 }
 `, b, a%8, a%8+5))
+		// corpus (repaired by abe7a69): a deferred host call that calls back a closure held in a variable
+		add("defer-callback", "", fmt.Sprintf(`package main
+
+import (
+	"fmt"
+	"sort"
+	"strings"
+)
+
+func main() {
+	xs := []int{%s}
+	func() {
+		var less func(i, j int) bool = func(i, j int) bool { return xs[i] < xs[j] }
+		defer sort.Slice(xs, less)
+	}()
+	fmt.Println(xs)
+	w := []string{%s}
+	func() {
+		fs := []func(rune) rune{func(c rune) rune { return c + 1 }}
+		defer func() { w[0] = strings.Map(fs[0], w[0]) }()
+		up := strings.ToUpper
+		defer fmt.Println(strings.Map(fs[0], w[1]), up(w[2]))
+	}()
+	fmt.Println(w)
+}
+`, ints(6), words(3)))
 		add("sort", "", fmt.Sprintf(`package main
 
 import (
